@@ -248,6 +248,33 @@ func (c *Ctx) genC14() {
 			c.middlewarePost(dest)
 		}
 	}
+	// "each form has exactly the intended action and hidden fields" also after the next form has been rendered: the three SP
+	// renderers in turn, every returned form compared with its snapshot after each later call
+	{
+		why := ""
+		var held, snaps [][]byte
+		for i := 0; i < 9 && why == ""; i++ {
+			dest := fmt.Sprintf("https://idp.example.com/sso/%d", i)
+			relay := fmt.Sprintf("relay-%d", i)
+			var out []byte
+			switch i % 3 {
+			case 0:
+				out = (&saml.AuthnRequest{ID: fmt.Sprintf("id-%d", i), Destination: dest, IssueInstant: now, Version: "2.0"}).Post(relay)
+			case 1:
+				out = (&saml.LogoutRequest{ID: fmt.Sprintf("id-%d", i), Destination: dest, IssueInstant: now, Version: "2.0", NameID: &saml.NameID{Value: "n"}}).Post(relay)
+			default:
+				out = (&saml.LogoutResponse{ID: fmt.Sprintf("id-%d", i), Destination: dest, IssueInstant: now, Version: "2.0"}).Post(relay)
+			}
+			held, snaps = append(held, out), append(snaps, append([]byte{}, out...))
+			for j := range held {
+				if !bytes.Equal(held[j], snaps[j]) {
+					why = fmt.Sprintf("key=form-changed-after-emission the form emitted by call %d (action %s) changed when call %d rendered its form", j, fmt.Sprintf("https://idp.example.com/sso/%d", j), i)
+					break
+				}
+			}
+		}
+		c.emitOneWay("formstable", nil, "done", why)
+	}
 	// metadata locations
 	c.endpointCases()
 }
